@@ -282,3 +282,31 @@ Definition run_collect {C R : Type} (attached : bool) (plan : outcome C) (exec :
         | r => (r, record_metrics_end attached (clk j) m1)
         end
     end.
+
+(* ---------- the pipeline's metrics slot (src/pipeline.rs: `metrics: Option<MetricsCollector>`) ---------- *)
+(* A MetricsCollector is a handle (Arc) on shared state: collectors are numbered, ps_colls holds
+   the state behind each handle and the slot holds a handle.
+     set_metrics(m):  g.metrics = Some(m)        the slot is REPLACED, whatever it held
+     take_metrics():  g.metrics.take()           returns the slot and empties it
+     get_metrics():   g.metrics.clone()          returns a handle on the same state
+   A run stamps the collector in the slot (record_metrics_start/_end look at g.metrics at the time
+   of the call) and no other. *)
+Record pstate := PS { ps_slot : option nat; ps_colls : list mstate }.
+Definition p_set_metrics (k : nat) (p : pstate) : pstate := PS (Some k) (ps_colls p).
+Definition p_take_metrics (p : pstate) : option nat * pstate := (ps_slot p, PS None (ps_colls p)).
+Definition p_get_metrics (p : pstate) : option nat := ps_slot p.
+Fixpoint upd {A : Type} (k : nat) (x : A) (l : list A) : list A :=
+  match l, k with
+  | [], _ => []
+  | _ :: r, O => x :: r
+  | y :: r, S k' => y :: upd k' x r
+  end.
+Definition coll (k : nat) (p : pstate) : mstate := nth k (ps_colls p) empty_state.
+Definition run_on {C R : Type} (plan : outcome C) (exec : C -> outcome R) (clk : nat -> Z)
+           (i j : nat) (p : pstate) : outcome R * pstate :=
+  match ps_slot p with
+  | Some k =>
+      let rm := run_collect true plan exec clk i j (coll k p) in
+      (fst rm, PS (ps_slot p) (upd k (snd rm) (ps_colls p)))
+  | None => (fst (run_collect false plan exec clk i j empty_state), p)
+  end.
